@@ -244,6 +244,10 @@ def check_scan(ctx, scs, via_cli, scratch, shared=False):
         p = Path(scratch) / "qc.agp"
         with p.open("w") as fh:
             format_agp(Assembly("a", scaffolds=build_scaffolds(scs)), fh)
+        # the report does not depend on the output format asked for
+        ofmt = [[], ["-f", "STR"], ["-f", "repr"], ["-f", "TPF"], []][hash(str(scs)) % 5]
+        if ofmt:
+            ctx.count("scan:cli-output-format:" + ofmt[1].upper())
         twice = hash(str(scs)) % 3 == 0
         if twice:
             # two input files whose names differ only in the directory (hap1/qc.agp hap2/qc.agp): each is reported
@@ -251,13 +255,13 @@ def check_scan(ctx, scs, via_cli, scratch, shared=False):
                 (Path(scratch) / sub).mkdir(exist_ok=True)
                 (Path(scratch) / sub / "qc.agp").write_text(p.read_text())
             ctx.count("scan:cli-same-stem-in-two-directories")
-            res = CliRunner().invoke(cli, [str(Path(scratch) / "hap1" / "qc.agp"), str(Path(scratch) / "hap2" / "qc.agp"), "--qc-overlaps"])
+            res = CliRunner().invoke(cli, [str(Path(scratch) / "hap1" / "qc.agp"), str(Path(scratch) / "hap2" / "qc.agp"), "--qc-overlaps", *ofmt])
             exp = [(a_, b_) for a_, b_ in exp] * 2
         elif hash(str(scs)) % 2:
-            res = CliRunner().invoke(cli, [str(p), "--qc-overlaps"])
+            res = CliRunner().invoke(cli, [str(p), "--qc-overlaps", *ofmt])
         else:
             ctx.count("scan:cli-stdin")
-            res = CliRunner().invoke(cli, ["--qc-overlaps", "-i", "AGP"], input=p.read_text())
+            res = CliRunner().invoke(cli, ["--qc-overlaps", "-i", "AGP", *ofmt], input=p.read_text())
         if res.exit_code != 0:
             ctx.violation("qc-cli-failed", f"asm-format --qc-overlaps exit {res.exit_code}: {res.exception!r}", case)
             return
@@ -351,6 +355,8 @@ def gates(c, tier):
         "scan:in-process-shared": 1000,
         "scan:in-process-rescan-after-edit": 2000,
         "scan:cli-same-stem-in-two-directories": 300,
+        "scan:cli-output-format:STR": 200,
+        "scan:cli-output-format:REPR": 200,
         "pairs:overlap": 1000,
         "pairs:abut": 500,
         "pairs:gap": 1000,
